@@ -208,7 +208,28 @@ M_TYPES = {'s': ('string', False, None), 'a': ('uint8', True, None), 'r': ('refe
            'sa': ('string', True, None), 'ra': ('reference', True, None)}
 
 
+RESULT_METHODS = ['SOut', 'SOut', 'SOut', 'sout', 'RBool', 'RBool', 'RStr', 'RDt', 'RReal', 'RReal32', 'RInt', 'RU8',
+                  'RChar', 'REmb']
+
+
+def gen_invoke_results(rng, sizes):
+    """a call of one of the methods whose provider answers with generated results of every CIM type"""
+    meth = rng.choice(RESULT_METHODS)
+    obj = rng.choice([{'t': 'str', 'v': 'TST_P'}, {'t': 'cname', 'cls': 'TST_P', 'ns': rng.choice([None, 'root/a', 'root/b']),
+                                                   'host': rng.choice(HOSTS)},
+                      {'t': 'str', 'v': 'tst_q'}])
+    vs = {'k': 'int', 'ty': 'uint32', 'v': rng.randrange(0, 2**31), 'ptype': ['uint32', False, None]}
+    if rng.random() < 0.5:
+        return {'op': 'InvokeMethod', 'args': {'MethodName': {'t': 'str', 'v': meth}, 'ObjectName': obj,
+                                               'Params': {'t': 'mparams', 'v': [['seed', vs, rng.random() < 0.5]]}},
+                'kwparams': {}}
+    return {'op': 'InvokeMethod', 'args': {'MethodName': {'t': 'str', 'v': meth}, 'ObjectName': obj,
+                                           'Params': {'t': 'none'}}, 'kwparams': {'seed': vs}}
+
+
 def gen_invoke(rng, sizes):
+    if rng.random() < 0.5:
+        return gen_invoke_results(rng, sizes)
     meth = rng.choice(['SEcho', 'IEcho', 'secho', 'IECHO', 'NoSuchMethod'])
     if rng.random() < 0.5:
         obj = g_iname(rng, sizes, gen_ok=False)
